@@ -21,6 +21,7 @@ func init() {
 			"C19.normalize — the header normalisation lower-cases and then maps every rune through a function that returns either its argument, only under a test r >= 'a' && r <= 'z', or the constant '_'; " +
 			"C19.errexit — errors of reading (except io.EOF, which ends the input), AddRow, Flush, both bbolt.Open calls and the big writer's constructor reach the command's error result; the cobra RunE closure returns it and main exits with a non-zero constant when Execute fails; " +
 			"C19.txrelease — a writer that keeps a bbolt write transaction open between calls has a method that rolls it back, and the command runs it (deferred) on every path after constructing the writer, so a failure cannot leave DB.Close waiting on a pending transaction (the command would hang instead of exiting non-zero); " +
+			"C19.notouch — every file-mutating os call reachable from the create command targets the temporary file the command made itself (os.CreateTemp) or a file that this run is proved to have created exclusively (dominated by the successful O_EXCL open; guarded by an ownership flag of a per-run object or local variable that is only set after that open succeeded; in a cleanup closure made after it) — never a path that may name a pre-existing output; " +
 			"C19.flush — the successful return is preceded by Flush on every path; C19.excl — the big-mode output (and the output of a writer type of the command's own) is opened with O_EXCL and the scratch database without O_CREATE, also where the open sits in a helper of the command (as C16, same census). " +
 			"NOT decided: observational identity of normal and --big output (C05's value-level clause); CSV parsing itself (encoding/csv, trusted); distinctness of headers after normalisation (excluded by the property).",
 		assumptions: []string{"encoding/csv default behaviour", "cobra runs RunE and returns its error from Execute", "go/ssa, dominance"},
@@ -1576,7 +1577,8 @@ func txReleaseRule(c *Ctx, rule string) {
 						return false
 					}
 					for _, cm := range trueCmps(fact{iff.Cond, pred.Succs[0] == succ}) {
-						if cm.Op == token.NEQ && cm.Y != nil && cm.X == errv && isNilConst(cm.Y) {
+						// holdsErr: also when err is a named result that a deferred closure captures (`*err = errv; t = *err; if t != nil`)
+						if cm.Op == token.NEQ && cm.Y != nil && holdsErr(cm.X, errv) && isNilConst(cm.Y) {
 							return true
 						}
 					}
@@ -1599,6 +1601,7 @@ func c19NoTouch(c *Ctx) {
 	const rule = "C19.notouch"
 	re := c.w.reach(c.a.CreateCmd)
 	n := 0
+	var prover *ownProver
 	for _, fn := range re.sorted() {
 		if c.w.pkgPathOf(fn) != pkgCmd {
 			continue
@@ -1621,8 +1624,17 @@ func c19NoTouch(c *Ctx) {
 			n++
 			key := fmt.Sprintf("%s: %s#%d", safeFname(fn), shortName(name), n)
 			arg := cc.Args[0]
-			c.r.check(fromCreateTemp(arg) || fromCreateTemp(peel(arg)), rule, key, "targets the command's own temporary file",
-				"a file-mutating call in the create command targets a path that is not the temporary file the command created itself: if it is the output path, a pre-existing output file is deleted or modified although the command must leave it untouched", c.w.ipos(i))
+			if fromCreateTemp(arg) || fromCreateTemp(peel(arg)) {
+				c.r.ok(rule, key, "targets the command's own temporary file", c.w.ipos(i))
+				return
+			}
+			// the output file, once this run has created it exclusively, is the command's own as well (removing the
+			// incomplete index after a failure): rules_ag21.go proves "created by this run" or says why it cannot
+			if prover == nil {
+				prover = newOwnProver(c)
+			}
+			c.r.check(prover.owned(i, arg), rule, key, "targets a file this run of the command created exclusively",
+				"a file-mutating call in the create command targets a path that is neither the temporary file the command created itself nor a file this run is known to have created exclusively: if it is the output path, a pre-existing output file is deleted or modified although the command must leave it untouched"+prover.why(), c.w.ipos(i))
 		})
 	}
 	if n == 0 {
